@@ -199,6 +199,16 @@ def render(case, prefix, pkgname):
     params = ", ".join("a%d %s" % (i, ptype(u)) for i, u in enumerate(uses))
     files["%s/types.go" % pkgname] = "package %s\n\nimport (\n%s)\n\ntype App struct{ N int }\n\nfunc NewApp(%s) *App { return &App{N: %d} }\n" % (
         pkgname, imps, params, len(uses))
+    # a package-level identifier named like the declared name of a used package, when every wire file imports that
+    # package under another explicit name (and nothing else is called like it): legal Go, and the migrated file must
+    # not call its import of that package by the declared name
+    local_names = set(v[0] for v in case["names"].values())
+    for j in used_pk:
+        pn = CATALOGUE[j][1]
+        spellings = [case["names"]["%d:%d" % (u["file"], j)] for u in uses if u["pkg"] == j]
+        if spellings and all(ex and nm != pn for nm, ex in spellings) and pn not in local_names and pn != "leaf" and not case.get("no_shadow"):
+            files["%s/types.go" % pkgname] += "\nvar %s = %d\n\nvar _ = %s\n" % (pn, j, pn)
+            break
     # result type of the injector
     lastf = case["nfiles"] - 1
     shape = case.get("shape")
